@@ -35,7 +35,7 @@ ASSUMPTIONS = ["JSON-representable metadata with finite numbers and valid unicod
                "symbolic links are not used for relocation"]
 
 TEXTS = ["", "plain", "ünïcödé ✓", "astral 😀🧪 𝔘", "quotes \" ' \\ / \\n", "control \t\n\r\x0b\x1f end", "  lead/trail  ",
-         "日本語のテキスト", "null\x00inside", "{\"looks\": \"like json\"}", "a" * 300]
+         "日本語のテキスト", "null\x00inside", "line\u2028sep para\u2029sep nel\x85 end", "bom\ufeff zwj\u200d rtl\u202e", "{\"looks\": \"like json\"}", "a" * 300]
 
 
 def rand_json(rng: random.Random, depth: int = 0):
@@ -213,7 +213,7 @@ def run_relocate(case: dict, work: Path) -> dict:
     obs: Counter = Counter()
     hist = H.gen_history(rng, max_sessions=3, formats=[fmt])
     hist["comp"] = comp
-    hist["hashes"] = rng.choice([("sha256",), ("md5", "xxh64"), ("sha1",)])
+    hist["hashes"] = rng.choice([("sha256",), ("md5", "xxh64"), ("sha1",), ()])
     original = work / "origin" / "ds"
     original.parent.mkdir(parents=True)
     keep: dict = {}
@@ -289,6 +289,16 @@ def run_relocate(case: dict, work: Path) -> dict:
             violations.append({"key": f"write-after-relocation-raised/{kind}",
                                "msg": f"{label} ({kind} {subdir}): {type(exc).__name__}: {exc}"[:400]})
             return finish(case, violations, obs)
+    if case["hseed"] % 2 == 0:
+        # the handle that was opened first, iterated, and written through must see what it wrote
+        for split in dsmod.SPLITS:
+            want = Counter(before.get(split, [])) + Counter(extra[split])
+            if want and split in moved._dataset_info.splits:   # pylint: disable=protected-access
+                got = Counter(dsmod.ids_of(readers.read(moved, "sync", split, shuffle=0, repeat=False))[0])
+                obs["same_handle_rereads"] += 1
+                if got != want:
+                    violations.append({"key": "handle-sees-stale-data-after-writing",
+                                       "msg": f"{label} split {split}: {sum(got.values())} of {sum(want.values())} examples"})
     final = Dataset(path_string)
     try:
         final.check(show_progressbar=False)
